@@ -375,7 +375,9 @@ func c17Generate(t *rapid.T) c17Gen {
 	}).Draw(t, "family")
 	offsetsOn := map[string]bool{} // topics with recorded partition offsets or a stored config
 	lastCommit := map[string]c17Op{}
-	groupPool := []string{"g", "g1", "g.x", "grp-2"}
+	// group ids are free-form: besides unrelated ids, ids equal to a topic name of this sequence
+	// (a common naming habit) and ids that extend / are extended by one
+	groupPool := []string{topicPool[0], "g", topicPool[1], "grp-2", topicPool[0] + ".g", "g-" + topicPool[1], "offsets", "metadata"}
 	memberPool := []string{"m1", "m2", "g-123", "consumer-1-abc"}
 	topic := rapid.SampledFrom(topicPool)
 	group := rapid.SampledFrom(groupPool)
@@ -410,13 +412,44 @@ func c17Generate(t *rapid.T) c17Gen {
 		return m
 	}
 	// rapid favours early elements: the operations the statement names come first
-	kinds := []string{"deleteTopic", "commit", "putGroup", "createTopic", "prefixScenario", "staleOffsetScenario", "fetchOffset", "fetchGroup", "nextOffset", "updateOffsets",
+	kinds := []string{"deleteTopic", "commit", "putGroup", "createTopic", "prefixScenario", "staleOffsetScenario", "groupNamedLikeTopic", "fetchOffset", "fetchGroup", "nextOffset", "updateOffsets",
 		"createPartitions", "listOffsets", "listGroups", "deleteGroup", "metadata", "refresh", "createTopic", "deleteTopic", "commit",
 		"putGroup", "updateConfig", "fetchConfig"}
 	nops := rapid.IntRange(3, 28).Draw(t, "nops")
 	for i := 0; i < nops; i++ {
 		op := c17Op{Kind: rapid.SampledFrom(kinds).Draw(t, "kind")}
 		switch op.Kind {
+		case "groupNamedLikeTopic":
+			// a group record (and offsets) under an id that is also a topic name, then that topic is deleted
+			tp := topic.Draw(t, "topic")
+			if committedOn[tp] && vfkit.Known(c17FindDelete) {
+				g.excluded[c17FindDelete] = true
+				op = c17Op{Kind: "listGroups"}
+				break
+			}
+			emit := func(m c17Op) {
+				g.script.Ops = append(g.script.Ops, m)
+				g.trace = append(g.trace, c17ShowOp(m))
+			}
+			if !exists[tp] {
+				emit(c17Op{Kind: "createTopic", Topic: tp, N: int32(rapid.IntRange(1, 3).Draw(t, "n")), RF: 1})
+				exists[tp] = true
+			}
+			gid := rapid.SampledFrom([]string{tp, tp, tp + ".g", "g-" + tp}).Draw(t, "gid")
+			emit(c17Op{Kind: "putGroup", CG: &c17Group{ID: gid, State: "stable", ProtocolType: "consumer", Protocol: "range", Generation: int32(rapid.IntRange(1, 5).Draw(t, "gen")), Leader: "m1",
+				Members: []c17Member{{ID: "m1", Subs: []string{tp}, AssignOrder: []string{tp}, Assign: map[string][]int32{tp: {0}}}}}})
+			if rapid.Bool().Draw(t, "withcommit") {
+				other := topic.Draw(t, "othertopic")
+				emit(c17Op{Kind: "commit", Group: gid, Topic: other, Part: 0, Off: rapid.Int64Range(0, 1000).Draw(t, "off"), Meta: "m"})
+				committedOn[other] = true
+			}
+			emit(c17Op{Kind: "deleteTopic", Topic: tp})
+			delete(exists, tp)
+			everDeleted[tp] = true
+			g.classes["group-id-related-to-deleted-topic"] = true
+			g.classes["group-with-assignments"] = true
+			emit(c17Op{Kind: "fetchGroup", Group: gid})
+			op = c17Op{Kind: "listGroups"}
 		case "staleOffsetScenario":
 			// a next-offset recorded for a partition the topic does not have (UpdateOffsets does not
 			// validate it), delete, re-create / grow so that the partition exists, read it
